@@ -144,7 +144,7 @@ pub struct StoreFault {
 
 #[derive(Clone, Debug, Serialize, Deserialize, PartialEq)]
 pub struct Skew {
-    /// ctx | vk | nonce | id | alg
+    /// ctx | vk | nonce | id | alg (alg: `value` = 4-byte big-endian xor mask of the algorithm identifier)
     pub what: String,
     /// affected aggregators; empty = all of them
     pub who: Vec<u8>,
@@ -177,6 +177,9 @@ pub struct PlanA {
     pub agg: AggPlan,
     #[serde(default)]
     pub skew: Option<Skew>,
+    /// a second, simultaneous mismatch of another kind (combined mismatches)
+    #[serde(default)]
+    pub skew2: Option<Skew>,
     /// combiner proceeds with whatever it holds once the transport is idle
     #[serde(default)]
     pub timeouts: bool,
@@ -370,6 +373,8 @@ fn apply_mutation(bytes: &mut Vec<u8>, m: &Mutation, regions: &[crate::inst::Reg
 
 pub struct World<'p, 'c, 'cc, V: SimVdaf<VK>, A: Adapter<V>, const VK: usize> {
     pub vdaf: &'p V,
+    /// the same instance under another algorithm identifier, used by the aggregators an `alg` skew names
+    pub alt: Option<&'p V>,
     pub ad: &'p A,
     pub plan: &'p PlanA,
     pub ctx: &'c mut Ctx<'cc>,
@@ -431,6 +436,7 @@ impl<'p, 'c, 'cc, V: SimVdaf<VK>, A: Adapter<V>, const VK: usize> World<'p, 'c, 
         let nodes = (0..n).map(|_| Node { reports: BTreeMap::new(), jobs: BTreeMap::new(), recompute: false }).collect();
         Ok(World {
             vdaf,
+            alt: None,
             ad,
             plan,
             ctx,
@@ -451,52 +457,61 @@ impl<'p, 'c, 'cc, V: SimVdaf<VK>, A: Adapter<V>, const VK: usize> World<'p, 'c, 
         })
     }
 
+    pub fn with_alt(mut self, alt: Option<&'p V>) -> Self {
+        self.alt = alt;
+        self
+    }
+    fn skews(&self) -> impl Iterator<Item = &'p Skew> {
+        let plan: &'p PlanA = self.plan;
+        plan.skew.iter().chain(plan.skew2.iter())
+    }
+    fn skew_of(&self, what: &str, j: usize) -> Option<&'p Skew> {
+        self.skews().find(|s| s.what == what && (s.who.is_empty() || s.who.contains(&(j as u8))))
+    }
+    /// the instance aggregator `j` (and, for j = 0, the combiner) runs
+    fn node_vdaf(&self, j: usize) -> &'p V {
+        match (self.alt, self.skew_of("alg", j)) {
+            (Some(a), Some(_)) => a,
+            _ => self.vdaf,
+        }
+    }
     fn node_ctx(&self, j: usize) -> Vec<u8> {
-        if let Some(s) = &self.plan.skew {
-            if s.what == "ctx" && (s.who.is_empty() || s.who.contains(&(j as u8))) {
-                return s.value.0.clone();
-            }
+        if let Some(s) = self.skew_of("ctx", j) {
+            return s.value.0.clone();
         }
         self.plan.ctx.0.clone()
     }
     fn node_vk(&self, j: usize) -> [u8; VK] {
-        if let Some(s) = &self.plan.skew {
-            if s.what == "vk" && (s.who.is_empty() || s.who.contains(&(j as u8))) {
-                let mut k = self.vk;
-                for (a, b) in k.iter_mut().zip(s.value.0.iter()) {
-                    *a ^= *b;
-                }
-                return k;
+        let mut k = self.vk;
+        if let Some(s) = self.skew_of("vk", j) {
+            for (a, b) in k.iter_mut().zip(s.value.0.iter()) {
+                *a ^= *b;
             }
         }
-        self.vk
+        k
     }
     fn node_nonce(&self, j: usize, rep: u32) -> [u8; 16] {
         let mut nonce = [0u8; 16];
         nonce.copy_from_slice(&self.plan.reports[rep as usize].nonce.0);
-        if let Some(s) = &self.plan.skew {
-            if s.what == "nonce" && (s.who.is_empty() || s.who.contains(&(j as u8))) {
-                for (a, b) in nonce.iter_mut().zip(s.value.0.iter()) {
-                    *a ^= *b;
-                }
+        if let Some(s) = self.skew_of("nonce", j) {
+            for (a, b) in nonce.iter_mut().zip(s.value.0.iter()) {
+                *a ^= *b;
             }
         }
         nonce
     }
     fn node_id(&self, j: usize) -> usize {
-        if let Some(s) = &self.plan.skew {
-            if s.what == "id" {
-                if let Some(x) = s.ids.get(j) {
-                    return (*x as u64 + s.id_offset) as usize;
-                }
+        if let Some(s) = self.skews().find(|s| s.what == "id") {
+            if let Some(x) = s.ids.get(j) {
+                return (*x as u64 + s.id_offset) as usize;
             }
         }
         j
     }
     /// identifier used for DECODING the input share (object-level skew keeps the true one)
     fn decode_id(&self, j: usize) -> usize {
-        match &self.plan.skew {
-            Some(s) if s.what == "id" && s.object_level => j,
+        match self.skews().find(|s| s.what == "id") {
+            Some(s) if s.object_level => j,
             _ => self.node_id(j),
         }
     }
@@ -684,7 +699,7 @@ impl<'p, 'c, 'cc, V: SimVdaf<VK>, A: Adapter<V>, const VK: usize> World<'p, 'c, 
 
     fn verify_init_job(&mut self, j: usize, rep: u32, ap: u32) -> Result<(V::VerifyState, Vec<u8>, Vec<u8>), String> {
         let (public_b, input_b) = self.nodes[j].reports.get(&rep).cloned().ok_or("no report")?;
-        let vdaf = self.vdaf;
+        let vdaf = self.node_vdaf(j);
         let id = self.node_id(j);
         let public = mon_decode(self.ctx, "PublicShare", &public_b, self.pimplied, |b| V::PublicShare::get_decoded_with_param(vdaf, b), |v| v.get_encoded(), |v| v.encoded_len()).ok_or("public share undecodable")?;
         // size implied by the instance (decoding parameter), measured on the honest report
@@ -771,7 +786,7 @@ impl<'p, 'c, 'cc, V: SimVdaf<VK>, A: Adapter<V>, const VK: usize> World<'p, 'c, 
         if has_mem {
             return self.nodes[j].jobs.get(&(rep, ap)).and_then(|x| x.state_mem.clone());
         }
-        let vdaf = self.vdaf;
+        let vdaf = self.node_vdaf(j);
         let id = self.node_id(j);
         let st = if self.nodes[j].recompute && round == 0 && !corrupted {
             self.ctx.probe("restart_recompute");
@@ -829,7 +844,7 @@ impl<'p, 'c, 'cc, V: SimVdaf<VK>, A: Adapter<V>, const VK: usize> World<'p, 'c, 
         } else if dec.len() == self.n + 1 {
             self.ctx.probe("combiner_n_plus_1");
         }
-        let vdaf = self.vdaf;
+        let vdaf = self.node_vdaf(0);
         let ctxb = self.node_ctx(0);
         let apv = &self.aps[ap as usize];
         let cnt = dec.len();
@@ -945,7 +960,7 @@ impl<'p, 'c, 'cc, V: SimVdaf<VK>, A: Adapter<V>, const VK: usize> World<'p, 'c, 
                     }
                     return;
                 };
-                let vdaf = self.vdaf;
+                let vdaf = self.node_vdaf(j);
                 let ctxb = self.node_ctx(j);
                 let r = guard("verify_next", || vdaf.verify_next(&ctxb, state, msg));
                 match r {
